@@ -108,7 +108,13 @@ func AllRefModes() []RefMode {
 
 // BuildRef imports content with the reference importer into s.
 func BuildRef(s *store.Store, content []byte, chunker string, w int, m RefMode) (cid.Cid, uint64, error) {
-	spl, err := chunk.FromString(bytes.NewReader(content), chunker)
+	return BuildRefReader(s, bytes.NewReader(content), chunker, w, m)
+}
+
+// BuildRefReader: the reference importer over a stream (contents too large to
+// hold in memory).
+func BuildRefReader(s *store.Store, src io.Reader, chunker string, w int, m RefMode) (cid.Cid, uint64, error) {
+	spl, err := chunk.FromString(src, chunker)
 	if err != nil {
 		return cid.Undef, 0, err
 	}
